@@ -22,6 +22,10 @@ def check(ctx, rep, tier):
                  "length, so the length term is a constant shift for a fixed text")
     _edges(ctx, rep)
     _raw_extent_readers(ctx, rep)
+    # a clock pattern that swallows the first letters of the next word blurs the span
+    from . import c20
+    rep.describe("token-bleed", c20.TOKEN_BLEED_RULE)
+    c20._bleed(ctx, rep, eng)
     c02._span(ctx, rep, eng)
     _length_term(ctx, rep)
     report_undecided(rep, eng)
